@@ -4,7 +4,8 @@ from .common import *
 from . import tlc, harness, rustobs, conform, trace
 from .result import Result
 
-CFG = {"quick": ["MC_Layout_q1.cfg", "MC_Layout_q2.cfg"], "thorough": ["MC_Layout_t1.cfg", "MC_Layout_t2.cfg", "MC_Layout_t3.cfg"]}
+CFG = {"quick": ["MC_Layout_q1.cfg", "MC_Layout_q2.cfg", "MC_Layout_q4.cfg"],
+       "thorough": ["MC_Layout_t1.cfg", "MC_Layout_t2.cfg", "MC_Layout_t3.cfg", "MC_Layout_t4.cfg"]}
 
 
 def render_text(case_or_input):
